@@ -46,6 +46,13 @@ fn inner_order(ids: impl Iterator<Item = u32>, o: Order, salt: u64) -> Vec<u32> 
         Mode::Random => v.sort_by_key(|x| crate::prng::mix2(o.seed ^ salt, u64::from(*x))),
         _ => v.sort_unstable(),
     }
+    // a redundant fact inside a record: one id listed twice (only under the non-canonical inner schedules)
+    if o.seed != 0 && !v.is_empty() && crate::prng::mix2(o.seed ^ 0xD0B1, salt) % 8 == 0 {
+        let i = (crate::prng::mix2(o.seed ^ 0xD0B2, salt) % v.len() as u64) as usize;
+        let j = (crate::prng::mix2(o.seed ^ 0xD0B3, salt) % (v.len() as u64 + 1)) as usize;
+        let x = v[i];
+        v.insert(j, x);
+    }
     v
 }
 
@@ -74,10 +81,14 @@ fn gene_record(r: &Rec, inner: Order) -> Vec<u8> {
     v.extend_from_slice(&r.id.to_be_bytes());
     v.push(nb.len() as u8);
     v.extend_from_slice(nb);
-    v.extend_from_slice(&be(r.terms.len()));
-    for t in inner_order(r.terms.iter().copied(), inner, u64::from(r.id)) {
+    let ids = inner_order(r.terms.iter().copied(), inner, u64::from(r.id));
+    v.extend_from_slice(&be(ids.len()));
+    for t in &ids {
         v.extend_from_slice(&t.to_be_bytes());
     }
+    // the record length counts the ids actually written
+    let total = v.len();
+    v[0..4].copy_from_slice(&be(total));
     v
 }
 
@@ -89,10 +100,14 @@ fn disease_record(r: &Rec, inner: Order) -> Vec<u8> {
     v.extend_from_slice(&r.id.to_be_bytes());
     v.extend_from_slice(&be(nb.len()));
     v.extend_from_slice(nb);
-    v.extend_from_slice(&be(r.terms.len()));
-    for t in inner_order(r.terms.iter().copied(), inner, u64::from(r.id)) {
+    let ids = inner_order(r.terms.iter().copied(), inner, u64::from(r.id));
+    v.extend_from_slice(&be(ids.len()));
+    for t in &ids {
         v.extend_from_slice(&t.to_be_bytes());
     }
+    // the record length counts the ids actually written
+    let total = v.len();
+    v[0..4].copy_from_slice(&be(total));
     v
 }
 
@@ -121,14 +136,28 @@ pub fn encode(f: &FactSet, version: u8, ord: &BinOrders) -> Vec<u8> {
     // one parent record per term (also for terms without parents), in an order of its own
     let pm = f.parents_map();
     let mut body = vec![];
+    let mut tail = vec![];
     for t in ordered_terms(f, ord.parents, Dup::none(), &mut fired) {
         let ps = &pm[&t.id];
-        body.extend_from_slice(&be(ps.len()));
+        let mut ids = inner_order(ps.iter().copied(), ord.inner, u64::from(t.id));
+        // the connections of one term split over two records (an encoder that writes per edge / per source file):
+        // the second record goes to the end of the section
+        if ord.inner.seed != 0 && ids.len() >= 2 && crate::prng::mix2(ord.inner.seed ^ 0x5911, u64::from(t.id)) % 5 == 0 {
+            let cut = 1 + (crate::prng::mix2(ord.inner.seed ^ 0x5912, u64::from(t.id)) % (ids.len() as u64 - 1)) as usize;
+            let rest = ids.split_off(cut);
+            tail.extend_from_slice(&be(rest.len()));
+            tail.extend_from_slice(&t.id.to_be_bytes());
+            for p in rest {
+                tail.extend_from_slice(&p.to_be_bytes());
+            }
+        }
+        body.extend_from_slice(&be(ids.len()));
         body.extend_from_slice(&t.id.to_be_bytes());
-        for p in inner_order(ps.iter().copied(), ord.inner, u64::from(t.id)) {
+        for p in ids {
             body.extend_from_slice(&p.to_be_bytes());
         }
     }
+    body.extend_from_slice(&tail);
     section(&mut out, body);
     let mut body = vec![];
     for r in ordered_recs(f, Kind::Gene, ord.genes) {
